@@ -33,7 +33,9 @@ Cosmetic(colored, plain) == Plain(colored) = Plain(plain)
 IsLittle(e) == e \in {"little", "<"}
 IsBig(e) == e \in {"big", ">", "!", "network"}
 Ordered(le, e) == IF IsLittle(e) THEN le ELSE Rev(le)
-PackBytes(v, bits, e) == Ordered(IntBytes(v, bits \div 8), e)
+\* a width given in bits stands for the whole bytes that hold it (12 bits -> 2 bytes), for packing and for unpacking alike
+WBytes(bits) == (bits + 7) \div 8
+PackBytes(v, bits, e) == Ordered(IntBytes(v, WBytes(bits)), e)
 UnpackVal(b, e, sign) == IntVal(Ordered(b, e), sign)     \* Ordered is an involution: big-endian bytes reversed are little-endian
-SwapVal(v, bits) == IntVal(Rev(IntBytes(v, bits \div 8)), FALSE)
+SwapVal(v, bits) == IntVal(Rev(IntBytes(v, WBytes(bits))), FALSE)
 =============================================================================
